@@ -25,6 +25,7 @@ Three kinds of cases, all judged by the Lean model AsynqModel.Lib.Debug (mode `d
 """
 import ast
 import collections
+import dataclasses
 import hashlib
 import io
 import itertools
@@ -70,6 +71,10 @@ HEADLINE = [
     "AsynqModel.Debug.C18_again_refines_partial",
     "AsynqModel.Debug.C18_again_observer_exact",
     "AsynqModel.Debug.C18_again_spec_holds_partial",
+    # audit 3: the two open findings (model of the code as it is) and the exactness of their signatures
+    "AsynqModel.Debug.C18_reject_counterexample",
+    "AsynqModel.Debug.C18_reject_signature_exact",
+    "AsynqModel.Debug.C18_badheld_signature_exact",
 ]
 BY_CONSTRUCTION = [
     "AsynqModel.Debug.C18_filter_spec_holds",
@@ -84,6 +89,8 @@ BY_CONSTRUCTION = [
     "AsynqModel.Debug.C18_format_error_non_exception",
     "AsynqModel.Debug.C18_format_error_garbage_traceback_attr",
     "AsynqModel.Debug.C18_extract_tb_hides_only_library",
+    "AsynqModel.Debug.C18_repr_badheld_counterexample",     # `render (.badHeld ..)` is a two-line table
+    "AsynqModel.Debug.C18_glue_refines_class_partial",      # C18_glue_refines_partial with the exception class explicit
 ]
 THEOREMS = HEADLINE + BY_CONSTRUCTION
 BUILDS = {"quick": ["py"], "thorough": ["py", "cy"]}
@@ -100,12 +107,17 @@ RULE = ("filter: tracebacks over the pattern tables extracted from the current d
         "retrievals over (same task again, new task on top by yield, new task on top by synchronous call) x depth 1-3 x "
         "own raise / ErrorFuture, every way of asking (value(), (), raise_if_error(), ErrorFuture(task.error()).value(), after format_error(task.error()), on another thread) x first retrieval x exception class, "
         "every handler of the task on top, 1-8 consumers in a row, hook failures and returned values asked again, plus "
-        "250 (2500 thorough) random chains of depth 1-8 each followed by 1-6 random later retrievals; repr: a fixed list of scenarios "
+        "250 (2500 thorough) random chains of depth 1-8 each followed by 1-6 random later retrievals, and new tasks on top that "
+        "await ErrorFuture(task.error()) instead of the task (yield / value(), every handler, depth 1-3); glue-reject (exception "
+        "class that rejects attribute assignment, all awaits by yield): every chain of depth 1 and 2 over handler x own raise x "
+        "bottom, plain chains of depth 1-8 x raise position, 150 (2000 thorough) random chains; repr: a fixed list of scenarios "
         "per object kind that reaches every cell of the model's state table which public API calls can reach (incl. "
         "`almost finished` tasks seen from a DUMP_QUEUED_RESULTS write, futures asked for their repr from inside their own "
         "repr, format_error of non-exceptions with a traceback and of exceptions whose `_traceback` is garbage), each cell with str/repr/dump; scoped values, their "
         "override contexts, generator.Value, futures, batch items and task results additionally hold every value shape "
-        "((), 1-, 2-, 3-tuple, nested tuple, namedtuple, dict, %-string, None, list) and must show that value. non-trivial = filter "
+        "((), 1-, 2-, 3-tuple, nested tuple, namedtuple, dict, %-string, None, list) and must show that value; kind badHeld: "
+        "ConstFuture / Future / batch item / ErrorFuture / failed Future / computed and failed task / scoped value / both override "
+        "contexts / generator.Value holding a value (error) whose own repr raises, str / repr / dump. non-trivial = filter "
         "case with a complete and a partial run / chain where an exception crosses >= 2 task levels or an orphan "
         "asks for its stack after a creator failed / an error asked for at least twice / repr case with >= 3 states; distinct by case hash")
 TRUSTED = [
@@ -141,13 +153,28 @@ ASSUMPTIONS = [
     "glue/stack-foreign-entry-sync (C18_known_signature_exact) stay as the record of the defect and re-appear only if "
     "the unconditional walk comes back",
     "chains: one awaited child per level (shared failing tasks awaited by two parents are out of the statement); no "
-    "await inside a handler / finally, no `raise .. from`, no tuple / list awaits, no ErrorFuture holding an exception "
-    "that was already raised elsewhere (probed by hand: glue correctly; not modelled)",
+    "await inside a handler / finally, no `raise .. from`, no tuple / list awaits (probed by hand: glue correctly; not modelled)",
+    "ErrorFuture(err) for an exception object that already has a history (audit 3, E11; reproduced): (a) `err` already "
+    "crossed an asynq chain (it carries `_task` / `_traceback`): `yield ErrorFuture(err)` or `ErrorFuture(err).value()` in a "
+    "NEW computation shows the new task levels followed by the glued frames of the FIRST journey (the levels of the "
+    "finished computation, ending at the original raising frame) - the same rule as a new task awaiting the failed task "
+    "itself, which is what the reference of later retrievals demands (`refRetrievals`: one frame per level crossed NOW, then "
+    "the chain's frames); judged as such: generated as retrievals [via, .., errfut]; not a violation.  (b) `err` was only "
+    "raised and caught in plain code (no `_task`): by yield the traceback restarts at the awaiting task (generator.throw "
+    "without a traceback), by `.value()` inside a body Python's own `raise` keeps the earlier frames behind the task's "
+    "frame; outside the model (the statement speaks of the levels the exception crosses and the raising frame, both are "
+    "shown), probed by hand only",
+    "exceptions that reject attribute assignment (glue-reject): modelled for chains in which every level awaits by yield "
+    "and the bottom is nothing or an ErrorFuture (rejectDomain); synchronous child calls (the rejected assignment's error "
+    "then arrives INSIDE the calling body and travels on as an ordinary exception over a dirty scheduler), context-hook "
+    "failures and later retrievals of such exceptions are not generated",
     "later retrievals: every later consumer asks the OUTERMOST task (the chain's top, or the last task put on top of it); "
     "asking a task again after another task has consumed its error is the shared-failing-task situation above "
     "(`_traceback` lives on the exception object, not on the task) and stays outside",
     "consecutive traceback entries of the same frame object count as one frame (`raise e` inside a handler)",
-    "values held by futures / scoped values have a working repr of their own and scoped values do not hold themselves",
+    "scoped values do not hold themselves; held values have a working repr of their own in every kind except `badHeld` "
+    "(a held value whose repr raises is INSIDE the statement - `never raise in any state` - and recorded as the open "
+    "finding repr/held-value-repr-raises; it is kept in a kind of its own so that its name cannot hide another failure)",
     "repr: the abstract state strings of the scenarios (which words a text must contain) are hand-written regression "
     "expectations of today's wording, compared as CORR; the property (SPEC) only says `did not raise` (and, for "
     "holders, `shows the held value`)",
@@ -460,6 +487,35 @@ def gen_glue_cases(tier, rng):
     return cases
 
 
+def _reject_norm(case):
+    """into the domain modelled for exceptions that reject attribute assignment (Lean: rejectDomain): every level
+    awaits by yield, the bottom is nothing or an ErrorFuture"""
+    c = {"sub": "glue", "bottom": 0 if isinstance(case["bottom"], list) else case["bottom"],
+         "levels": [dict(L, **{"await": "yld"}) for L in case["levels"]], "exc": "frozen"}
+    return c
+
+
+def gen_reject_cases(tier, rng):
+    """chains whose exceptions reject attribute assignment (frozen dataclass; audit 3, A2 - open finding
+    glue/exception-rejecting-attributes-not-delivered): every chain of depth 1 and 2 over handler x own raise x bottom
+    (all awaits by yield, orphans everywhere), plain chains of depth 1-8 x raise position, random chains"""
+    cases = []
+    alpha = [_level("yld", h, o, 1) for h in HANDLERS for o in (None, 1)]
+    for b in (0, 1):
+        for l0 in alpha:
+            cases.append({"sub": "glue", "bottom": b, "levels": [dict(l0)], "exc": "frozen"})
+        for l0, l1 in itertools.product(alpha, alpha):
+            cases.append({"sub": "glue", "bottom": b, "levels": [dict(l0), dict(l1)], "exc": "frozen"})
+    for d in range(1, 9):
+        for r in range(d):
+            levels = [_level(orphan=i % 2, pre=i % 3, handler=HANDLERS[(i + r) % len(HANDLERS)]) for i in range(r + 1)]
+            levels[r]["own"] = r % 3
+            cases.append({"sub": "glue", "bottom": 0, "levels": levels, "exc": "frozen"})
+    for _ in range(150 if tier == "quick" else 2000):
+        cases.append(_reject_norm(gen_glue_random(rng)))
+    return cases
+
+
 DIRECT_STYLES = ["value", "call", "raise_if_error", "error_future", "peek", "thread"]
 FIRST_STYLES = ["value", "call", "peek"]
 VIA_HANDLERS = ["pass", "pass", "bare", "named"]
@@ -520,6 +576,16 @@ def gen_again_cases(tier, rng):
     for mode in ("pause", "resume"):
         cases.append({"sub": "again", "bottom": ["hook", mode, 1], "levels": [_level(), _level()],
                       "again": [["direct", "value"], ["via", "sync", "pass", "value"]]})
+    # audit 3, E11: the new task on top awaits ANOTHER library object holding the same exception object -
+    # `yield ErrorFuture(task.error())` / `ErrorFuture(task.error()).value()` in a NEW computation (5th field "errfut")
+    for aw in ("yld", "sync"):
+        for h in ("pass", "bare", "named"):
+            for d in (1, 2, 3):
+                levels = [_level(pre=i % 2) for i in range(d)]
+                levels[-1]["own"] = d - 1
+                cases.append({"sub": "again", "bottom": 0, "levels": levels,
+                              "again": [["via", aw, h, "value", "errfut"], ["direct", "value"],
+                                        ["via", "yld", "pass", "call", "errfut"]]})
     for _ in range(250 if tier == "quick" else 2500):
         c = gen_glue_random(rng)
         c["sub"] = "again"
@@ -531,7 +597,7 @@ def gen_again_cases(tier, rng):
 
 REPR_KINDS = ["future", "constFuture", "errorFuture", "task", "userBatch", "userItem", "debugBatch", "debugItem",
               "scheduler", "scopedValue", "scopedOverride", "propOverride", "asyncGen", "genValue", "formatError",
-              "dumpAll"]
+              "dumpAll", "badHeld"]
 
 
 def corpus():
@@ -553,6 +619,7 @@ def plan(tier, seed):
         cases.append({"sub": "filter", "tbs": tbs[off:off + TB_PER_CASE]})
     cases += gen_glue_cases(tier, rng)
     cases += gen_again_cases(tier, random.Random(seed * 1000003 + 1805))   # own stream: the older cases stay as they were
+    cases += gen_reject_cases(tier, random.Random(seed * 1000003 + 1803))
     return cases
 
 
@@ -588,7 +655,10 @@ def shrink(case):
                 if len(ag) > 1:
                     yield mk(case["bottom"], levels, again=ag[:i] + ag[i + 1:])
             for i, r in enumerate(ag):
-                simple = ["direct", "value"] if r[0] == "direct" else ["via", r[1], "pass", "value"]
+                simple = ["direct", "value"] if r[0] == "direct" else ["via", r[1], "pass", "value"] + r[4:]
+                if r != simple:
+                    yield mk(case["bottom"], levels, again=ag[:i] + [simple] + ag[i + 1:])
+                simple = simple[:4]
                 if r != simple:
                     yield mk(case["bottom"], levels, again=ag[:i] + [simple] + ag[i + 1:])
             if case.get("first", "value") != "value":
@@ -654,10 +724,14 @@ def neighbours(case, rng):
             c = {"sub": "glue", "bottom": case["bottom"], "levels": levels}
             if case.get("exc"):
                 c["exc"] = case["exc"]
+            if case.get("exc") == "frozen":
+                c = _reject_norm(c)
             if own or not _may_hit_open_stack_finding(c):
                 yield like(c)
         for _ in range(16):
             c = gen_glue_random(rng)
+            if case.get("exc") == "frozen":
+                c = _reject_norm(c)
             if own or not _may_hit_open_stack_finding(c):
                 yield like(c)
     elif sub == "filter":
@@ -790,7 +864,15 @@ class GlueBaseErr(BaseException):
         self.tok = tok
 
 
-GLUE_ERRS = (GlueErr, GlueBaseErr)
+@dataclasses.dataclass(frozen=True)
+class GlueFrozenErr(Exception):
+    """an exception whose class REJECTS attribute assignment (case field "exc": "frozen"; audit 3, A2): a frozen
+    dataclass - `error._task = self` in async_task.py `_accept_error` raises dataclasses.FrozenInstanceError"""
+    tok: int = 0
+
+
+REJECT_TOK = 997      # what the caller caught is the error of the rejected assignment (Lean: rejectTok)
+GLUE_ERRS = (GlueErr, GlueBaseErr, GlueFrozenErr)
 
 
 def _level_tmpl(ctx, lv):
@@ -983,7 +1065,8 @@ class GlueCtx(object):
         self.stash = []
         self.events = []
         self._fns = {}
-        self.E = GlueBaseErr if case.get("exc") == "base" else GlueErr     # the class of every exception of the chain
+        # the class of every exception of the chain
+        self.E = {"base": GlueBaseErr, "frozen": GlueFrozenErr}.get(case.get("exc"), GlueErr)
 
     def __repr__(self):
         return "ctx"
@@ -1088,7 +1171,8 @@ def run_glue(case):
     bsx = "(hook %s %d)" % ctx.hook if ctx.hook else ("1" if ctx.bottom else "0")
     again = case.get("again") if case.get("sub") == "again" else None
     if again is None:
-        lines = ["(case debug %d glue %s %s (levels %s))" % (case["id"], bsx, rule, " ".join(lv_sx(L) for L in ctx.levels))]
+        lines = ["(case debug %d %s %s %s (levels %s))" % (
+            case["id"], "glue-reject" if ctx.E is GlueFrozenErr else "glue", bsx, rule, " ".join(lv_sx(L) for L in ctx.levels))]
     else:
         asx = " ".join("(direct)" if r[0] == "direct" else "(via %s)" % r[1] for r in again)
         lines = ["(case debug %d again %s %s (levels %s) (again %s))" % (
@@ -1101,6 +1185,8 @@ def run_glue(case):
         if e is None:
             return "(result ok)", 0
         tok = getattr(e, "tok", 999) if isinstance(e, ctx.E) else 999
+        if ctx.E is GlueFrozenErr and type(e) is dataclasses.FrozenInstanceError and isinstance(e.__context__, ctx.E):
+            tok = REJECT_TOK     # the assignment `error._task = ..` was rejected and THAT error reached the caller
         # raw: walk the traceback, one token per frame object
         raw = []
         tb = e.__traceback__
@@ -1143,7 +1229,11 @@ def run_glue(case):
     # later retrievals of the same result: the same task asked again, or a new task put on top of it
     for i, r in enumerate(again or []):
         if r[0] == "via":
-            cur = ctx.afn(100 + i).asynq(ctx, 100 + i, cur, r[1], r[2])
+            src = cur
+            if r[4:] == ["errfut"] and cur.is_computed() and cur.error() is not None:
+                from asynq import futures as _futures
+                src = _futures.ErrorFuture(cur.error())
+            cur = ctx.afn(100 + i).asynq(ctx, 100 + i, src, r[1], r[2])
             e2 = _glue_again(cur, r[3] if r[3] != "raise_if_error" else "value")
         else:
             e2 = _glue_again(cur, r[1])
@@ -1160,7 +1250,8 @@ def run_glue(case):
     feats += sorted({"glue:handler=" + L["handler"][0] for L in lv} | {"glue:await=" + L["await"] for L in lv})
     if any(L["own"] for L in lv):
         feats.append("glue:helpers")
-    feats.append("glue:class=%s" % ("BaseException" if ctx.E is GlueBaseErr else "Exception"))
+    feats.append("glue:class=%s" % ("BaseException" if ctx.E is GlueBaseErr else
+                                    "rejects-attribute-assignment" if ctx.E is GlueFrozenErr else "Exception"))
     if again is not None:
         feats = [f.replace("glue:", "again:chain-") for f in feats]
         feats.append("again:retrievals=%d" % len(again))
@@ -2102,6 +2193,75 @@ def sc_gen_value(t):
         t.diag("holds:" + name, generator.Value(shape), _holder("genValue", shape), shows=(shape,))
 
 
+class _BadReprError(RuntimeError):
+    pass
+
+
+class _BadRepr(object):
+    """a value whose own __repr__ (and hence str()) raises (audit 3, A5)"""
+
+    def __repr__(self):
+        raise _BadReprError("this value cannot be printed")
+
+
+class _BadErr(Exception):
+    def __repr__(self):
+        raise _BadReprError("this error cannot be printed")
+
+    def __str__(self):
+        raise _BadReprError("this error cannot be printed")
+
+
+def sc_bad_held(t):
+    """every object that holds a user value, holding one whose own repr raises: str / repr / dump (open finding
+    repr/held-value-repr-raises: str and repr raise; dump() goes through debug.str = qcore.safe_str and returns).
+    A kind of its own, so that the recorded name cannot hide another failure of the ordinary kinds."""
+    import asynq
+    from asynq import futures, generator, scoped_value
+
+    def both(scen, obj, holder):
+        t.diag(scen, obj, "(badheld %s 0)" % holder, ops=("str", "repr"))
+        t.diag(scen, obj, "(badheld %s 1)" % holder, ops=("dump",))
+    both("constFuture", futures.ConstFuture(_BadRepr()), "future")
+    f = futures.Future(lambda: _BadRepr())
+    f.value()
+    both("future", f, "future")
+    both("errorFuture", futures.ErrorFuture(_BadErr()), "errorFuture")
+    f = futures.Future(lambda: 1)
+    f.set_error(_BadErr())
+    both("futureError", f, "errorFuture")
+
+    @asynq.asynq()
+    def returns_bad():
+        yield None
+        return _BadRepr()
+
+    @asynq.asynq()
+    def raises_bad():
+        yield None
+        raise _BadErr()
+    task = returns_bad.asynq()
+    task.value()
+    both("taskValue", task, "task")
+    task = raises_bad.asynq()
+    try:
+        task.value()
+    except _BadErr:
+        pass
+    both("taskError", task, "task")
+    UBatch, UItem, _, _ = _mk_batching()
+    it = UItem(_BadRepr())
+    it.batch.flush()
+    both("userItem", it, "future")
+    both("scopedValue", scoped_value.AsyncScopedValue(_BadRepr()), "scopedValue")
+    both("scopedOverride", scoped_value.AsyncScopedValue(1).override(_BadRepr()), "scopedOverride")
+
+    class Target(object):
+        prop = 1
+    both("propOverride", scoped_value.async_override(Target(), "prop", _BadRepr()), "propOverride")
+    both("genValue", generator.Value(_BadRepr()), "genValue")
+
+
 class _NotAnException(object):
     pass
 
@@ -2258,7 +2418,7 @@ SCENARIOS = {
     "userBatch": sc_user_batch, "userItem": sc_user_item, "debugBatch": sc_debug_batch, "debugItem": sc_debug_item,
     "scheduler": sc_scheduler, "scopedValue": sc_scoped_value, "scopedOverride": sc_scoped_override,
     "propOverride": sc_prop_override, "asyncGen": sc_async_gen, "genValue": sc_gen_value,
-    "formatError": sc_format_error, "dumpAll": sc_dump_all,
+    "formatError": sc_format_error, "dumpAll": sc_dump_all, "badHeld": sc_bad_held,
 }
 
 
